@@ -959,7 +959,12 @@ func opReferenceChangeJournal(ctx context.Context, pc *uint64, interpreter *EVMI
 	}
 
 	u64Ceiling := func(nom, denom uint64) uint64 {
-		return (nom + denom - 1) / denom
+		// nom + denom - 1 would wrap around for nom close to 2^64
+		q := nom / denom
+		if nom%denom != 0 {
+			q++
+		}
+		return q
 	}
 
 	keccak := func(interpreter *EVMInterpreter, data []byte) []byte {
